@@ -8,7 +8,9 @@ import (
 	"time"
 
 	"github.com/xjslang/xjs/ast"
+	"github.com/xjslang/xjs/lexer"
 	"github.com/xjslang/xjs/parser"
+	"github.com/xjslang/xjs/token"
 )
 
 func init() { oracles["C11"] = oracleC11 }
@@ -123,8 +125,50 @@ type c11Result struct {
 	errs     []parser.ParserError
 }
 
+// c11Timeouts: parses that did not come back (their goroutines cannot be stopped; after a few the oracle stops parsing)
+var c11Timeouts int
+
+// c11Prelude: other builders of the same process register operators — also on built-in token types — and build and use
+// parsers, before the parsers under test are made from fresh builders. Parsers are independent of each other, so this
+// changes nothing; it runs in every tier and in replay, and is part of every reported input.
+const c11PreludeText = "earlier in the process: builders with RegisterPostfixOperator(NOT), RegisterPrefixOperator(ASSIGN), RegisterInfixOperator(dynamic `^`, 7), RegisterInfixOperator(MODULO-like dynamic `%`, 13) built and ran parsers"
+
+func c11Prelude() {
+	defer func() { _ = recover() }()
+	done := make(chan struct{})
+	go func() {
+		defer close(done)
+		defer func() { _ = recover() }()
+		for _, setup := range []func(*lexer.Builder, *parser.Builder){
+			func(lb *lexer.Builder, pb *parser.Builder) { _ = pb.RegisterPostfixOperator(token.NOT, genericPostfix) },
+			func(lb *lexer.Builder, pb *parser.Builder) { _ = pb.RegisterPrefixOperator(token.ASSIGN, genericPrefix) },
+			func(lb *lexer.Builder, pb *parser.Builder) {
+				_ = pb.RegisterInfixOperator(lb.RegisterTokenType("^"), 7, genericInfix)
+				_ = pb.RegisterInfixOperator(lb.RegisterTokenType("%"), 13, genericInfix)
+				_ = pb.RegisterPostfixOperator(lb.RegisterTokenType("@"), genericPostfix)
+				_ = pb.RegisterPrefixOperator(lb.RegisterTokenType("~"), genericPrefix)
+			},
+		} {
+			lb := lexer.NewBuilder()
+			pb := parser.NewBuilder(lb)
+			setup(lb, pb)
+			for _, src := range []string{"a! + b", "x = 1", "a ^ b", "f(a)"} {
+				p := pb.Build(src)
+				_, _ = p.ParseProgram()
+			}
+		}
+	}()
+	select {
+	case <-done:
+	case <-time.After(5 * time.Second):
+	}
+}
+
 func checkC11(c *oracleCtx, flags, src string) {
-	input := map[string]any{"src": hexOf(src), "text": src, "flags": flags}
+	if c11Timeouts >= 3 {
+		return
+	}
+	input := map[string]any{"src": hexOf(src), "text": src, "flags": flags, "history": c11PreludeText}
 	ch := make(chan c11Result, 1)
 	go func() {
 		var res c11Result
@@ -143,6 +187,7 @@ func checkC11(c *oracleCtx, flags, src string) {
 	case res = <-ch:
 		tm.Stop()
 	case <-tm.C:
+		c11Timeouts++
 		c.violation("timeout", "parse did not return within 3 s", input)
 		return
 	}
@@ -206,6 +251,7 @@ func checkC11(c *oracleCtx, flags, src string) {
 }
 
 func oracleC11(c *oracleCtx) {
+	c11Prelude()
 	for _, in := range readInputsB(c) {
 		switch in.kind {
 		case "PARSE", "PRINT":
@@ -232,7 +278,11 @@ func oracleC11(c *oracleCtx) {
 	fixed := []string{"let = 5", "let", "let x =", "function", "function f(", "function f(a", "function f(a,", "function f() {", "if", "if (", "if (a", "if (a)", "if (a) b else",
 		"while (a)", "for (", "for (;;", "for (;;)", "for (let", "for (let x = ;;) a", "{", "{ a", "{ a; ", "}", "a.", "a[", "a[b", "f(", "f(a,", "[", "[a,", "({", "({a", "({a:", "({a:1,", "x = ",
 		"a +", "!", "-", "++", "a ++ ++", "return", "return ;", "else", "a b", "1 2", "089", "1e", "0x", "a ? b", "a.(c)", "x = \"abc", "`abc", "a\x00b", "(", "((((((((((", "[[[[[[[[[[", "{{{{{{{{{{",
-		"a = = b", "let let", "function function", "f(,)", "[,]", "({,})", "a.b.", "a..b", ";", ";;", "a;;b", "\n", "//c", "//c\n", "a //c", "function(){}", "function(){}()", "{}", "{}{}", "if(a){}else{}else{}"}
+		"a = = b", "let let", "function function", "f(,)", "[,]", "({,})", "a.b.", "a..b", ";", ";;", "a;;b", "\n", "//c", "//c\n", "a //c", "function(){}", "function(){}()", "{}", "{}{}", "if(a){}else{}else{}",
+		// a lone `;` where one statement is expected
+		"if (a);", "if (a) ; else b()", "if (a) b; else ;", "while (c);", "for (;;);", "if (a) ;;", "function f() { ; }", ";;;", "{ ; }", "if (a) { ; } else ;",
+		// an operand followed by a prefix operator on the next line / without separator
+		"a\n!b", "f(a !b)", "a\n-b", "a\n~b", "a !", "a\n!", "x = a\n!b\n"}
 	for _, f := range fixed {
 		for _, fl := range modeFlags {
 			checkC11(c, fl, f)
